@@ -266,6 +266,138 @@ def _short(x, n=600):
     return s if len(s) <= n else s[:n] + "…"
 
 
+# =============================================================================== controlled clock
+import datetime as _D   # noqa: E402
+import time as _T       # noqa: E402
+import types as _types  # noqa: E402
+
+_REAL_TIME = _T.time
+_REAL_DATETIME = _D.datetime
+_CLOCK_DELTA = [0.0]
+
+
+def _shifted_time() -> float:
+    return _REAL_TIME() + _CLOCK_DELTA[0]
+
+
+class _VMeta(type(_REAL_DATETIME)):
+    def __instancecheck__(cls, x):      # a datetime made anywhere is a datetime for the patched modules too
+        return isinstance(x, _REAL_DATETIME)
+
+    def __subclasscheck__(cls, c):
+        return issubclass(c, _REAL_DATETIME)
+
+
+class VDatetime(_REAL_DATETIME, metaclass=_VMeta):
+    """datetime whose `now` reads the shifted clock; values handed out are plain datetimes"""
+
+    @classmethod
+    def now(cls, tz=None):
+        return _REAL_DATETIME.fromtimestamp(_shifted_time(), tz)
+
+    @classmethod
+    def utcnow(cls):
+        return _REAL_DATETIME.fromtimestamp(_shifted_time(), _D.UTC).replace(tzinfo=None)
+
+    @classmethod
+    def today(cls):
+        return _REAL_DATETIME.fromtimestamp(_shifted_time())
+
+
+class _ModProxy(_types.ModuleType):
+    def __init__(self, real, **over):
+        super().__init__(real.__name__)
+        self.__dict__["_real"] = real
+        self.__dict__.update(over)
+
+    def __getattr__(self, n):
+        return getattr(self.__dict__["_real"], n)
+
+
+class ShiftedClock:
+    """While installed, every wall-clock read made by pynenc.* / pynmon.* code (`time.time()`, `time()` imported
+    from time, `datetime.now()/utcnow()/today()`) is `delta` seconds ahead of the real clock: the state under
+    test becomes `delta` seconds old without anybody sleeping.  delta == 0 installs nothing."""
+
+    def __init__(self, delta: float):
+        self.delta = float(delta or 0.0)
+        self.saved: list = []
+
+    def __enter__(self):
+        if not self.delta:
+            return self
+        import sys
+        _CLOCK_DELTA[0] = self.delta
+        tproxy = _ModProxy(_T, time=_shifted_time, time_ns=lambda: _T.time_ns() + int(self.delta * 1e9))
+        dproxy = _ModProxy(_D, datetime=VDatetime)
+        for name, mod in list(sys.modules.items()):
+            if mod is None or not (name == "pynenc" or name == "pynmon" or name.startswith(("pynenc.", "pynmon."))):
+                continue
+            for attr, val in list(vars(mod).items()):
+                new = None
+                if val is _REAL_TIME:
+                    new = _shifted_time
+                elif val is _T:
+                    new = tproxy
+                elif val is _REAL_DATETIME:
+                    new = VDatetime
+                elif val is _D:
+                    new = dproxy
+                if new is not None:
+                    self.saved.append((mod, attr, val))
+                    setattr(mod, attr, new)
+        return self
+
+    def __exit__(self, *a):
+        for mod, attr, val in reversed(self.saved):
+            setattr(mod, attr, val)
+        self.saved.clear()
+        _CLOCK_DELTA[0] = 0.0
+        return False
+
+
+def configured_durations(app) -> dict[str, float]:
+    """every duration the app is configured with (name -> seconds), read off the live config objects: the
+    thresholds past which time-driven housekeeping (retention sweeps, dead-runner / stuck-invocation handling,
+    claim expiry ...) would find something to do"""
+    units = (("_hours", 3600.0), ("_minutes", 60.0), ("_seconds", 1.0), ("_sec", 1.0), ("_days", 86400.0))
+    out: dict[str, float] = {}
+    confs = {"app": getattr(app, "conf", None)}
+    for c in ("orchestrator", "broker", "state_backend", "trigger", "client_data_store", "runner"):
+        try:
+            confs[c] = getattr(app, c).conf
+        except Exception:  # noqa: BLE001
+            pass
+    for cname, conf in confs.items():
+        if conf is None:
+            continue
+        for attr in dir(conf):
+            if attr.startswith("_"):
+                continue
+            for suf, mult in units:
+                if attr.endswith(suf):
+                    try:
+                        v = getattr(conf, attr)
+                    except Exception:  # noqa: BLE001
+                        break
+                    if isinstance(v, (int, float)) and not isinstance(v, bool) and v > 0:
+                        out[f"{cname}.{attr}"] = float(v) * mult
+                    break
+    return out
+
+
+def clock_shifts(app, thorough: bool) -> list[float]:
+    """how far ahead the clock is put: just past each configured duration of at least a minute (thorough: all of
+    them; quick: the one in the middle and the largest), and far past everything"""
+    ds = sorted({round(v * 1.05 + 1.0, 3) for v in configured_durations(app).values() if v >= 60.0})
+    if not ds:
+        ds = [3600.0 * 25]
+    far = ds[-1] * 30
+    if thorough:
+        return ds + [far]
+    return sorted({ds[len(ds) // 2], ds[-1], far})
+
+
 # =============================================================================== the monitor
 def live_routes(pm) -> list[tuple[str, str, str, str, object]]:
     """(method, path, module, function, route object) for every route of the FastAPI app (recursing into
@@ -424,6 +556,104 @@ def gen_ops(rng, n_ops: int, flavour: str) -> list:
     return ops
 
 
+# a small state in which every task has invocations in several statuses at once (REGISTERED, PENDING, RUNNING,
+# SUCCESS, FAILED), two runners, final invocations stamped for the retention sweep, a duplicate message
+RICH_OPS = [("heartbeat", "r1"), ("heartbeat", "r2"),
+            ("call", "ok"), ("call", "fail"), ("call", "ok"), ("call", "fail"), ("call", "ok"), ("call", "fail"),
+            ("call", "ok"), ("call", "fail"), ("call", "after"),
+            ("run", "r1"), ("run", "r2"), ("run", "r1"), ("claim", "r1"), ("start", "r2"), ("claim", "r2"),
+            ("requeue", 7), ("call", "ok")]
+
+
+def valid_values(w: World, name: str, typ: str) -> list | None:
+    """values of a query parameter that SELECT something in the current state (None: not a filter we know)"""
+    from pynenc.invocation.status import InvocationStatus as S
+    if typ == "int":
+        return None
+    if "status" in name:
+        present = []
+        for i in w.ids:
+            try:
+                st = w.app.orchestrator.get_invocation_status(i).name
+            except Exception:  # noqa: BLE001
+                continue
+            if st not in present:
+                present.append(st)
+        absent = [s.name for s in S if s.name not in present][:1]
+        return [p.lower() for p in present] + [present[0]] * bool(present) + absent
+    if name in ("task_id", "task_id_key", "task") or "workflow_type" in name:
+        return [t.task_id.key for t in w.tasks.values()]
+    if "workflow_id" in name or "invocation" in name:
+        return [str(i) for i in w.ids if w.has_record(i)][:3]
+    if "runner" in name:
+        return list(w.runners)
+    return None
+
+
+def filter_matrix(w: World, path: str, route_obj, module_name: str, cap: int = 5) -> list[str]:
+    """list routes: every filter alone and every PAIR of filters with values that select something (all tasks x
+    all statuses present ...), path parameters filled with existing ids.  Deterministic (no rng)."""
+    import itertools
+    qn = query_names(route_obj, module_name)
+    pools = {}
+    for name, typ in sorted(qn.items()):
+        vals = valid_values(w, name, typ)
+        if vals:
+            seen = []
+            for v in vals:
+                if v not in seen:
+                    seen.append(v)
+            pools[name] = seen[:cap]
+    if not pools:
+        return []
+    base = path
+    for name in re.findall(r"{(\w+)(?::\w+)?}", path):
+        vals = valid_values(w, name, "str") or ["x"]
+        base = re.sub(r"{" + name + r"(?::\w+)?}", str(vals[0]), base)
+    urls = []
+    for a, b in itertools.combinations(sorted(pools), 2):
+        for va, vb in itertools.product(pools[a], pools[b]):
+            urls.append(f"{base}?{a}={va}&{b}={vb}")
+    if len(pools) == 1:
+        (a, vals), = pools.items()
+        urls += [f"{base}?{a}={v}" for v in vals]
+    if len(pools) >= 3:
+        urls.append(base + "?" + "&".join(f"{a}={pools[a][0]}" for a in sorted(pools)))
+    return urls
+
+
+def run_filter_matrix(ctx: Ctx, w: World, client, live_get, stats: dict, distinct: set, max_per_route: int) -> int:
+    n = 0
+    for (m, path, mod, fn, robj) in live_get:
+        urls = filter_matrix(w, path, robj, mod)
+        if len(urls) > max_per_route:          # keep the spread: every k-th combination
+            step = len(urls) / max_per_route
+            urls = [urls[int(k * step)] for k in range(max_per_route)]
+        for url in urls:
+            request_and_judge(ctx, w, client, path, url, stats, {"kind": "route", "backend": w.kind, "ops": w.history}, None)
+            n += 1
+            distinct.add((w.kind, "matrix", len(w.history), url))
+            stats["filter_matrix_requests"][path] = stats["filter_matrix_requests"].get(path, 0) + 1
+    return n
+
+
+def run_aged(ctx: Ctx, w: World, client, live_get, reached: set, stats: dict, distinct: set, shifts: list[float],
+             per_route: int) -> int:
+    """the same routes and read-only API methods while the state is `shift` seconds old (clock ahead)"""
+    n = 0
+    for shift in shifts:
+        n += run_api_level(ctx, w, reached, stats, shift=shift)
+        for (m, path, mod, fn, robj) in live_get:
+            urls = gen_requests(ctx.rng, w, path, robj, mod, per_route)
+            for url in urls:
+                request_and_judge(ctx, w, client, path, url, stats,
+                                  {"kind": "route", "backend": w.kind, "ops": w.history}, None, shift=shift)
+                n += 1
+                distinct.add((w.kind, "aged", shift, url))
+        stats["clock_shifts_s"][str(shift)] = stats["clock_shifts_s"].get(str(shift), 0) + 1
+    return n
+
+
 # =============================================================================== model side
 def coq_list(xs) -> str:
     return "[" + "; ".join(str(int(x)) for x in xs) + "]"
@@ -445,11 +675,14 @@ def classify_queue_change(before: list, after: list) -> str:
 
 
 def request_and_judge(ctx: Ctx, w: World, client, method_path: str, url: str, stats: dict, replay_base: dict,
-                      qv_cases: list | None):
+                      qv_cases: list | None, shift: float = 0.0):
+    """one GET between two full read-outs.  shift > 0: while the request is served every clock read of
+    pynenc / pynmon is `shift` seconds ahead (the system was left alone for that long; nothing sleeps)."""
     before = w.snapshot()
     with warnings.catch_warnings():
         warnings.simplefilter("ignore")
-        resp = client.get(url, follow_redirects=False)
+        with ShiftedClock(shift):
+            resp = client.get(url, follow_redirects=False)
     after = w.snapshot()
     code = resp.status_code
     stats["status_codes"][str(code)] = stats["status_codes"].get(str(code), 0) + 1
@@ -483,10 +716,12 @@ def request_and_judge(ctx: Ctx, w: World, client, method_path: str, url: str, st
         what = (f"GET {url} ({w.kind}, HTTP {code}) changed the broker queue: before {[idx[i] for i in qb]} "
                 f"after {[idx[i] for i in after['queue']]} (ids numbered in creation order)")
     else:
-        key = f"GET{method_path}:changed:{','.join(changed)}"
-        what = f"GET {url} ({w.kind}, HTTP {code}) changed {changed}: {json.dumps(d)[:700]}"
+        key = f"GET{method_path}:changed:{','.join(changed)}" + (":clock-ahead" if shift else "")
+        what = (f"GET {url} ({w.kind}, HTTP {code}" + (f", served {shift:.0f} s after the last operation" if shift else "")
+                + f") changed {changed}: {json.dumps(d)[:700]}")
     stats["changed"][key] = stats["changed"].get(key, 0) + 1
-    ctx.violation(key, what, dict(replay_base, url=url, method_path=method_path, diff=d, http_status=code))
+    ctx.violation(key, what, dict(replay_base, url=url, method_path=method_path, diff=d, http_status=code,
+                                  clock_shift=shift))
     return False
 
 
@@ -502,15 +737,25 @@ def api_recipes(w: World):
     ids = (w.ids[:3] + w.ids[-2:] + [InvocationId("unknown-id")]) if w.ids else [InvocationId("unknown-id")]
     tasks = list(w.tasks.values())
     t0, t1 = datetime.now(UTC) - timedelta(days=1), datetime.now(UTC) + timedelta(days=1)
+    # every combination of the two filters of the listing methods: no task / each task  x  no status / one / several
+    filt = [(t, st) for t in [None] + [t.task_id for t in tasks]
+            for st in (None, [S.SUCCESS], [S.REGISTERED, S.PENDING], [S.FAILED, S.RUNNING])]
+
+    def _consume(v, depth=0):
+        """lazy results (generators of a listing method) are run to the end, also inside tuples / lists"""
+        if isinstance(v, (list, tuple)) and depth < 3:
+            for x in v:
+                _consume(x, depth + 1)
+        elif hasattr(v, "__next__"):
+            for _ in v:
+                pass
 
     def each(f, xs):
         def run():
             outs = []
             for x in xs:
                 try:
-                    v = f(x)
-                    if hasattr(v, "__iter__") and not isinstance(v, (str, bytes, dict, list, tuple, set)):
-                        v = list(v)
+                    _consume(f(x))
                     outs.append("ok")
                 except Exception as ex:  # noqa: BLE001 - a raising read is still a read
                     outs.append(type(ex).__name__)
@@ -537,11 +782,16 @@ def api_recipes(w: World):
 
     rec = {
         "ABrokerCount": each(lambda _: br.count_invocations(), [0]),
-        "AOrchExisting": each(lambda t: o.get_existing_invocations(task=t, statuses=list(S)), tasks),
+        "AOrchExisting": each(lambda t: (o.get_existing_invocations(task=t, statuses=list(S)),
+                                         o.get_existing_invocations(task=t, statuses=[S.SUCCESS]),
+                                         o.get_existing_invocations(task=t)), tasks),
         "AOrchBlocking": each(lambda n: o.get_blocking_invocations(n), [0, 1, 10]),
         "AOrchActiveRunners": each(lambda f: o.get_active_runners(f), [None, True, False]),
-        "AOrchCount": each(lambda st: o.count_invocations(statuses=st), [None, [S.SUCCESS], [S.REGISTERED, S.PENDING]]),
-        "AOrchIdsPaginated": each(lambda a: o.get_invocation_ids_paginated(limit=a[0], offset=a[1]), [(2, 0), (100, 1), (1, 50)]),
+        "AOrchCount": each(lambda a: o.count_invocations(task_id=a[0], statuses=a[1]), filt),
+        "AOrchIdsPaginated": each(lambda a: (o.get_invocation_ids_paginated(limit=a[0], offset=a[1]),
+                                             [o.get_invocation_ids_paginated(task_id=f[0], statuses=f[1], limit=a[0], offset=a[1])
+                                              for f in filt]),
+                                  [(2, 0), (100, 1), (1, 50)]),
         "AOrchTaskIds": each(lambda t: o.get_task_invocation_ids(t.task_id), tasks),
         "AOrchCallIds": each(lambda c: o.get_call_invocation_ids(c), call_ids()),
         "AOrchStatus": each(lambda i: o.get_invocation_status(i), ids),
@@ -579,12 +829,13 @@ def api_recipes(w: World):
     return rec
 
 
-def run_api_level(ctx: Ctx, w: World, reached: set[str], stats: dict):
+def run_api_level(ctx: Ctx, w: World, reached: set[str], stats: dict, shift: float = 0.0):
     recs = api_recipes(w)
     n = 0
     for ctor, fn in sorted(recs.items()):
         before = w.snapshot()
-        outs = fn()
+        with ShiftedClock(shift):
+            outs = fn()
         after = w.snapshot()
         n += max(1, len(outs))
         stats["api_calls"][ctor] = stats["api_calls"].get(ctor, 0) + len(outs)
@@ -592,11 +843,14 @@ def run_api_level(ctx: Ctx, w: World, reached: set[str], stats: dict):
             stats["api_outcomes"][o_] = stats["api_outcomes"].get(o_, 0) + 1
         d = diff_snap(before, after)
         if d:
-            key = f"api:{ctor}:changed:{','.join(sorted(d))}"
-            what = (f"{w.kind}: the API method(s) modelled as read-only {ctor} changed {sorted(d)}: {json.dumps(d)[:500]}"
+            key = f"api:{ctor}:changed:{','.join(sorted(d))}" + (":clock-ahead" if shift else "")
+            what = (f"{w.kind}: the API method(s) modelled as read-only {ctor}"
+                    + (f", called {shift:.0f} s after the last operation," if shift else "")
+                    + f" changed {sorted(d)}: {json.dumps(d)[:500]}"
                     + ("" if ctor in reached else "  [not reached by any GET route today]"))
             if ctor in reached:
-                ctx.violation(key, what, {"kind": "api", "backend": w.kind, "ctor": ctor, "ops": w.history, "diff": d})
+                ctx.violation(key, what, {"kind": "api", "backend": w.kind, "ctor": ctor, "ops": w.history, "diff": d,
+                                          "clock_shift": shift})
             else:
                 ctx.notes.setdefault("unreached_read_api_that_mutates", []).append(what)
     return n
@@ -681,7 +935,7 @@ def main(ctx: Ctx) -> int:
     info = ctx.translate("routes", routes_tr.translate, "gen/Routes_gen.v")
     ctx.prove("Props/C20.v")
     stats: dict = {"status_codes": {}, "changed": {}, "api_calls": {}, "api_outcomes": {}, "requests_per_route": {},
-                   "flavours": {}, "queue_lengths": {}}
+                   "flavours": {}, "queue_lengths": {}, "filter_matrix_requests": {}, "clock_shifts_s": {}}
     pm, client = monitor()
     live = [r for r in live_routes(pm) if r[2].startswith("pynmon")]
     live_get = [r for r in live if r[0] == "GET"]
@@ -726,6 +980,17 @@ def main(ctx: Ctx) -> int:
                 stats.setdefault("witnesses", {})[f"{kind}:{name}"] = "unchanged" if ok else "changed"
         # ---- (2b) the queue view on EVERY small state: queue length <= L, every subset of purged records, every limit
         n_eval += run_queue_view_enumeration(ctx, scratch, client, 4 if ctx.thorough else 3, stats, qv_cases, distinct)
+        # ---- (2c) the rich state (every task in several statuses, finished invocations, two runners): every pair of
+        #           list filters with selecting values; then everything again with the clock ahead of every configured
+        #           duration (retention, dead-runner, stuck-invocation thresholds): the state has aged, nothing else
+        for kind in ("mem", "sqlite"):
+            w = build_world(kind, scratch, RICH_OPS)
+            w.activate()
+            n_eval += run_api_level(ctx, w, reached, stats)
+            n_eval += run_filter_matrix(ctx, w, client, live_get, stats, distinct, 400 if ctx.thorough else 60)
+            shifts = clock_shifts(w.app, ctx.thorough)
+            ctx.notes["configured_durations_s"] = configured_durations(w.app)
+            n_eval += run_aged(ctx, w, client, live_get, reached, stats, distinct, shifts, 3 if ctx.thorough else 2)
         # ---- (3) API level
         n_eval += run_broker_sequences(ctx, scratch, 400 if ctx.thorough else 30, stats)
         n_states = 24 if ctx.thorough else 3
@@ -752,6 +1017,12 @@ def main(ctx: Ctx) -> int:
                         n_eval += 1
                         distinct.add((kind, path, url.split("?")[0] == path, url))
                         stats["requests_per_route"][path] = stats["requests_per_route"].get(path, 0) + 1
+                # ---- (4b) filter pairs and the aged clock on the generated state as well
+                n_eval += run_filter_matrix(ctx, w, client, live_get, stats, distinct, 120 if ctx.thorough else 24)
+                if ctx.thorough or si == 0:
+                    sh = clock_shifts(w.app, ctx.thorough)
+                    n_eval += run_aged(ctx, w, client, live_get, reached, stats, distinct,
+                                       sh if ctx.thorough and si < 4 else sh[-2:-1], 2)
                 if len(ctx.coverage["samples"]) < 4:
                     ctx.sample({"backend": kind, "flavour": flavour, "ops": ops[:10], "queue_len": ql, "ids": len(w.ids)})
         # ---- (5) the model's prediction for every queue-view request that ran
@@ -897,13 +1168,16 @@ def replay(ctx: Ctx, path: str) -> int:
                 return 0
             w = build_world(kind, scratch, rp["ops"])
             w.activate()
+            shift = float(rp.get("clock_shift") or 0.0)
             before = w.snapshot()
             with warnings.catch_warnings():
                 warnings.simplefilter("ignore")
-                r = client.get(rp["url"], follow_redirects=False)
+                with ShiftedClock(shift):
+                    r = client.get(rp["url"], follow_redirects=False)
             after = w.snapshot()
             idx = {i: k for k, i in enumerate(w.ids)}
-            print("backend", kind, "GET", rp["url"], "-> HTTP", r.status_code)
+            print("backend", kind, "GET", rp["url"], "-> HTTP", r.status_code,
+                  f"(clock of pynenc/pynmon {shift:.0f} s ahead while serving)" if shift else "")
             print("queue before", [idx[i] for i in before["queue"]])
             print("queue after ", [idx[i] for i in after["queue"]])
             d = diff_snap(before, after)
@@ -912,7 +1186,8 @@ def replay(ctx: Ctx, path: str) -> int:
         if rp["kind"] == "api":
             w = build_world(rp["backend"], scratch, rp["ops"])
             before = w.snapshot()
-            outs = api_recipes(w)[rp["ctor"]]()
+            with ShiftedClock(float(rp.get("clock_shift") or 0.0)):
+                outs = api_recipes(w)[rp["ctor"]]()
             d = diff_snap(before, w.snapshot())
             print(rp["ctor"], outs, "changed:", json.dumps(d)[:2000] if d else "nothing")
             return 1 if d else 0
